@@ -94,7 +94,7 @@ let parse_ctrl s = match String.split_on_char '.' s with
   | [o; c; v] -> { c_oid = bytes_of_hex o; c_crit = (c = "1"); c_val = (if v = "none" then None else Some (bytes_of_hex v)) }
   | _ -> failwith "ctrl"
 let parse_mods s = match String.split_on_char ':' s with
-  | [("m" | "M"); cs; tmo; opts] ->      (* "M": the scripted server withholds its reply, the operation times out - the modifiers are spent all the same *)
+  | [("m" | "M" | "k"); cs; tmo; opts] ->      (* "M": the scripted server withholds its reply, the operation times out - the modifiers are spent all the same *)
       { m_ctrls = (if cs = "none" then None else Some (List.map parse_ctrl (split_on ';' cs)));
         m_timeout = (if tmo = "none" then None else Some (z_of_decimal tmo));
         m_opts = (if opts = "none" then None else match String.split_on_char '.' opts with
@@ -117,8 +117,12 @@ let parse_op s = match String.split_on_char '/' s with
   | ["unbind"] -> OUnbind
   | _ -> failwith ("op " ^ s)
 let lane_req args =
-  let rec pairs = function m :: o :: r -> (parse_mods m, parse_op o) :: pairs r | _ -> [] in
-  let outs = run_calls true true (cleared, z_of_int 1) (pairs args) in
+  (* "m:.. op" = a call on the handle; "k:.. m:.. op" = modifiers left pending on the handle, the operation invoked on a clone (RequestSeq.cstep) *)
+  let rec steps = function
+    | kb :: m :: o :: r when String.length kb > 1 && kb.[0] = 'k' && kb.[1] = ':' -> OnClone (parse_mods kb, parse_mods m, parse_op o) :: steps r
+    | m :: o :: r -> OnBase (parse_mods m, parse_op o) :: steps r
+    | _ -> [] in
+  let outs = run_csteps (handle_of no_mods, z_of_int 1) (steps args) in
   String.concat " | " (List.map (function Some t -> show_tree (canon t) | None -> "local-error") outs)
 
 (* ---- controls and extended operations (C19) ---- *)
